@@ -114,6 +114,7 @@ class RealRouter:
         self.handlers = {}
         self.fired = []
         self.got = {}
+        self.rule_pats = {}
 
     def handler(self, hid):
         if hid not in self.handlers:
@@ -143,6 +144,7 @@ class RealRouter:
         try:
             if k == 'add':
                 r = op['r']
+                self.rule_pats[r['id']] = r['pat']
                 self.router.add(self.text(r, op.get('flavour')), op.get('spelled') or sorted(r['meths']), self.handler(r['id']), r['name'] or None,
                                 overwrite=op['ow'])
             elif k == 'remove_rule':
@@ -195,7 +197,26 @@ class RealRouter:
                 'hooks': sorted(s2l(p) for p in r.hooks)}
 
     def resolve(self, path, verb):
-        """Answer of RadiRouter.resolve with the verb chain of Ombott.to_route, in the vocabulary of the spec."""
+        """Answer of RadiRouter.resolve with the verb chain of Ombott.to_route, in the vocabulary of the spec.  If the
+        (semi-private) answer of to_route is shaped differently, the same question is asked through the WSGI entry point."""
+        try:
+            return self._resolve(path, verb)
+        except core.MachineryError:
+            raise
+        except Exception:   # noqa
+            if TOKEN in path or 10 in path or 13 in path or not path:
+                return {'k': 'unobservable'}
+            c = self.call(path, verb)
+            if c['status'] == 404:
+                return {'k': '404'}
+            if c['status'] == 405:
+                return {'k': '405', 'allow': c['allow'].split(',') if c['allow'] else []}
+            if c['status'] == 200 and c['h'] is not None:
+                return {'k': 'ok', 'h': c['h'], 'route': self.rule_pats.get(c['h'], []), 'params': c['kw'],
+                        'hooks': [[len(prefix) - 1, pat] for pat, prefix in c['fired']]}
+            return {'k': 'status%s' % c['status']}
+
+    def _resolve(self, path, verb):
         end_point, err = self.app.to_route('/' + l2s(path), verb)     # the verb chain is Ombott.to_route's
         if end_point is None:
             if err[0] == 404:
